@@ -220,13 +220,14 @@ def lbChoices (p : Policy) (e : Env) (cands : List Backend) : Policy × List Bac
   | .maglev built n =>
     match e.key with
     | none => let r := rrPick n cands; (.maglev built r.2, r.1.toList)
-    | some _ =>
+    | some k =>
       if cands.isEmpty then (p, [])
       else
         let built' := if built.isEmpty then cands.map (·.addr) else built
         match maglevLookup e.pref built' cands with
         | some b => (.maglev built' n, [b])
-        | none => let r := rrPick n cands; (.maglev built' r.2, r.1.toList)
+        -- no table entry names a candidate: `backends[key % len]` (the key stays pinned)
+        | none => (.maglev built' n, (cands[k % cands.length]?).toList)
 
 /-- resolve the random input -/
 def pick (choices : List Backend) (rnd : Nat) : Option Backend := choices[rnd % choices.length]?
@@ -274,11 +275,9 @@ def removeBackend (l : BList) (a : Nat) : BList × List Nat :=
 /-- `find_backend` -/
 def findBackend (l : BList) (a : Nat) : Option Backend := l.backends.find? (fun b => b.addr == a)
 
-/-- `find_sticky` -/
+/-- `find_sticky`: the first holder of the sticky id that can accept a connection -/
 def findSticky (l : BList) (s now : Nat) : Option Backend :=
-  match l.backends.find? (fun b => b.sticky == some s) with
-  | some b => if canOpen now b then some b else none
-  | none => none
+  l.backends.find? (fun b => b.sticky == some s && canOpen now b)
 
 /-- `available_backends(backup)` -/
 def available (now : Nat) (bs : List Backend) (backup : Bool) : List Backend :=
